@@ -304,7 +304,7 @@ def session_check(chk, fails, dis, stats, cli):
 
 def run(chk, fails, dis, stats):
     import check_c20
-    cli = check_c20.build_cli()
+    cli = check_c20.build_cli("numscript-cli-c19")
     stats.setdefault("stream_kinds", {})
     stats.setdefault("model_status", {})
     reader_check(chk, fails, dis, stats, cli)
